@@ -55,6 +55,8 @@ def work(payload, *args, **kwargs):
         raise Boom(payload.idx)
     if payload.mode == 'bang-base':
         raise Bang(payload.idx)
+    if payload.mode == 'eintr':
+        raise InterruptedError(payload.idx)     # an ordinary captured exception that looks like the loop's "stopped" marker
     return ('done', payload.idx, args, tuple(sorted(kwargs.items())))
 
 
@@ -205,9 +207,9 @@ def configs(tier):
         # every subset of payloads raising a captured exception; the raising
         # mode cycles over the three capture forms so each form meets each slot
         for bits in itertools.product([0, 1], repeat=n):
-            for variant in range(3 if n and any(bits) else 1):
-                forms = ['boom-any', 'boom-listed', 'bang-base']
-                modes = tuple('ok' if not b else forms[(i + variant) % 3] for i, b in enumerate(bits))
+            for variant in range(4 if n and any(bits) else 1):
+                forms = ['boom-any', 'boom-listed', 'bang-base', 'eintr']
+                modes = tuple('ok' if not b else forms[(i + variant) % 4] for i, b in enumerate(bits))
                 for w in range(1, wmax + 1):
                     # full choice tree up to 5 payloads; 6 payloads deviation-bounded
                     yield modes, w, (None if n <= 5 else 2)
@@ -331,7 +333,7 @@ def run(rc):
     interrupted_histories(rc)
     cfgs = list(configs(rc.tier))
     rc.rule = ('every payload list of length 0..{n}, every subset raising a captured exception (raises() empty / listing the class / '
-               'listing a base class), max_workers 1..{w}; for each, the complete choice tree of the deterministic executor '
+               'listing a base class / an InterruptedError raised by the task itself), max_workers 1..{w}; for each, the complete choice tree of the deterministic executor '
                '(which running future completes, which finished future is yielded, completions between yields, inside or outside the '
                'as_completed snapshot); plus two-run histories: a run interrupted by KeyboardInterrupt at each position (sequential, single task, parallel) '
                'followed by each of five ordinary runs under all their schedules; non-trivial = schedule with at least one non-default choice').format(
